@@ -84,6 +84,12 @@ func (g *Gen) fill(kind string, p *Program) Op {
 		"Float64", "Float32", "MarshalBinary", "String", "MarshalText", "MarshalJSON",
 		"Int64", "Int32", "Uint64", "Uint32":
 		op.D = []string{d()}
+		switch kind {
+		case "Int64", "Int32", "Uint64", "Uint32":
+			if g.R.P(1, 2) {
+				op.D = []string{g.boundDec()}
+			}
+		}
 	case "Add", "Sub", "Mul", "Quo", "Pow", "Max", "Min", "QuoRem", "Cmp", "CmpAbs", "Equal", "Compare":
 		op.D = []string{d(), d()}
 		if kind == "Pow" && g.R.P(1, 2) {
@@ -140,6 +146,8 @@ func (g *Gen) fill(kind string, p *Program) Op {
 		op.I = []int64{int64(g.R.N(len(p.Pool.Rats)))}
 	case "FromFloat":
 		op.I = []int64{int64(g.R.N(len(p.Pool.Floats)))}
+	case "Int64b", "Int32b", "Uint64b", "Uint32b":
+		panic("unreachable")
 	case "Int", "Rat", "Float":
 		op.D = []string{d()}
 		op.I = []int64{g.slot(nBig)}
@@ -691,7 +699,14 @@ func (g *Gen) cohortMember(lit string) string {
 		}
 		c, e = q, e+1
 	}
-	for k := g.R.N(36); k > 0; k-- {
+	k := g.R.N(36)
+	switch g.R.N(4) {
+	case 0:
+		k = 0 // shortest coefficient
+	case 1:
+		k = 36 // longest coefficient that fits
+	}
+	for ; k > 0; k-- {
 		t := new(big.Int).Mul(c, big.NewInt(10))
 		if t.Cmp(ref.CMax) > 0 || e-1 < ref.MinExp {
 			break
